@@ -11,12 +11,15 @@ RUN_IMPORT = "Reactive.OwnerRun"
 READY = True
 
 RULE = ("cases drawn from one PRNG (VERIF_SEED): a random scope program (root body of statements: new signal, new stored "
-        "value, on_cleanup, provide_context(ty, v), use_context(ty), child owner {body}, Effect::new {body}, "
+        "value, new raw ArenaItem<T, S> (24 (type, storage) pairs: Copy scalars, tuples, arrays, unit, fn pointers, "
+        "&'static str, Option<char>, String, Box, Arc, Rc, Cell in SyncStorage and LocalStorage, via ArenaItem::new / "
+        "new_local / new_with_storage; one kind is favoured per case so that freed slots are reused by the same type), on_cleanup, provide_context(ty, v), use_context(ty), child owner {body}, Effect::new {body}, "
         "Effect::new_isomorphic {body}, Effect::watch {body as dependency fn}, RenderEffect {body}, ImmediateEffect {body}, memo {body}; nesting "
         "depth <= 3) run under a fresh root Owner, followed by a history of operations chosen against a Python simulation "
         "of the live entities: re-run / cleanup / drop-handle of any user scope at any depth, notify effect, notify memo, "
         "read memo, poll one effect task, run tasks until idle in a chosen order, notify an immediate effect (re-runs "
-        "synchronously), allocate n values under a scope after disposals, dispose a value / memo / effect handle, drop a "
+        "synchronously), allocate n stored values / n raw arena items of a kind under a scope after disposals, dispose a "
+        "value (dispose(), or into_inner() = Storage::take for a raw item) / memo / effect handle, drop a "
         "render-effect / immediate-effect handle, pause / resume a scope, use_context at a scope; 7 % of the "
         "targets are stale or out of range on purpose. Notifications are left pending across disposals (a notified, "
         "not-yet-polled effect whose scope dies). A case is non-trivial when at least one release (re-run, cleanup, drop, "
@@ -25,7 +28,9 @@ TRUSTED = [
     "Coq 8.16.1 kernel (coqc); no axioms",
     "extraction to OCaml with ExtrOcamlBasic only, ocamlfind ocamlopt 4.13.1, extract/driver.ml sexp I/O",
     "harness/rx2 (Rust): src/exec.rs executor (tasks polled only on request), src/c08.rs interpreting the statement language "
-    "with the real Owner / on_cleanup / provide_context / use_context / RwSignal / StoredValue / Effect::{new, new_isomorphic, "
+    "with the real Owner / on_cleanup / provide_context / use_context / RwSignal / StoredValue / ArenaItem<T, S> "
+    "(read through try_with_value and try_get_value, is_disposed() cross-checked against the access for every handle) / "
+    "Effect::{new, new_isomorphic, "
     "watch} / RenderEffect / ImmediateEffect / Memo / ArcTrigger API; "
     "slot keys are read from the handles' Debug rendering (NodeId(<idx>v<version>)) and canonicalised (index by first "
     "appearance, version relative to the first one seen), the arena length through the verif-hook verif_arena_len()",
@@ -85,8 +90,8 @@ class Sim:
     def run_body(self, sc, body):
         for st in body:
             t = st[0]
-            if t in (0, 1):
-                h = dict(alive=True, hid=len(self.handles))
+            if t in (0, 1, 12):
+                h = dict(alive=True, hid=len(self.handles), kind=(st[1] if t == 12 else None))
                 self.handles.append(h)
                 if sc.alive:
                     sc.vals.append(("h", h))
@@ -262,7 +267,11 @@ class Sim:
             s = self.user(a)
             if s:
                 self.run_body(s, [[1]] * op[2])
-        elif t == 19:
+        elif t == 28:
+            s = self.user(a)
+            if s:
+                self.run_body(s, [[12, op[3]]] * op[2])
+        elif t in (19, 29):
             if a < len(self.handles):
                 self.remove("h", self.handles[a], ())
         elif t == 20:
@@ -316,7 +325,17 @@ class Sim:
 
 
 # ------------------------------------------------------------------ generator
-def gen_body(rng, depth, budget, ctxy=False):
+N_KINDS = 24          # (type, storage) pairs of raw arena items in harness/rx2/src/c08.rs
+KINDN = ["u32", "(u8,bool)", "fn()->u32", "String", "Arc<i64>", "i64", "&'static str", "()", "[u8;4]", "Box<i64>",
+         "Option<char>", "u32", "u32", "(u8,bool)", "fn()->u32", "String", "Rc<i64>", "i64", "&'static str", "()",
+         "Cell<u32>", "Box<i64>", "Arc<i64>", "Option<char>"]
+
+
+def kind_name(k):
+    return "%s/%s" % (KINDN[k % N_KINDS], "Sync" if k % N_KINDS < 12 else "Local")
+
+
+def gen_body(rng, depth, budget, ctxy=False, fav=0):
     n = rng.choice([1, 2, 3, 4]) if depth > 0 else rng.choice([2, 3, 4, 5])
     out = []
     for _ in range(n):
@@ -326,23 +345,27 @@ def gen_body(rng, depth, budget, ctxy=False):
         r = rng.random()
         if ctxy:
             # context-heavy profile: providers a few levels up, lookups deep inside
-            if r < 0.25:
+            if r < 0.04:
+                out.append([12, fav if rng.random() < 0.5 else rng.randrange(N_KINDS)])
+            elif r < 0.25:
                 out.append([3, rng.randint(0, 2), rng.randint(1, 99)])
             elif r < 0.55:
                 out.append([4, rng.randint(0, 2)])
             elif r < 0.65 or depth >= 3:
                 out.append([2])
             elif r < 0.85:
-                out.append([5, gen_body(rng, depth + 1, budget, True)])
+                out.append([5, gen_body(rng, depth + 1, budget, True, fav)])
             elif r < 0.92:
-                out.append([rng.choice([6, 8, 11]), gen_body(rng, depth + 1, budget, True)])
+                out.append([rng.choice([6, 8, 11]), gen_body(rng, depth + 1, budget, True, fav)])
             else:
-                out.append([7, gen_body(rng, depth + 1, budget, True)])
+                out.append([7, gen_body(rng, depth + 1, budget, True, fav)])
             continue
-        if r < 0.14:
+        if r < 0.09:
             out.append([0])
-        elif r < 0.28:
+        elif r < 0.18:
             out.append([1])
+        elif r < 0.32:
+            out.append([12, fav if rng.random() < 0.5 else rng.randrange(N_KINDS)])
         elif r < 0.48:
             out.append([2])
         elif r < 0.56:
@@ -352,21 +375,22 @@ def gen_body(rng, depth, budget, ctxy=False):
         elif depth >= 3:
             out.append([2])
         elif r < 0.73:
-            out.append([5, gen_body(rng, depth + 1, budget)])
+            out.append([5, gen_body(rng, depth + 1, budget, False, fav)])
         elif r < 0.81:
-            out.append([rng.choice([6, 6, 9, 10]), gen_body(rng, depth + 1, budget)])
+            out.append([rng.choice([6, 6, 9, 10]), gen_body(rng, depth + 1, budget, False, fav)])
         elif r < 0.89:
-            out.append([8, gen_body(rng, depth + 1, budget)])
+            out.append([8, gen_body(rng, depth + 1, budget, False, fav)])
         elif r < 0.95:
-            out.append([11, gen_body(rng, depth + 1, budget)])
+            out.append([11, gen_body(rng, depth + 1, budget, False, fav)])
         else:
-            out.append([7, gen_body(rng, depth + 1, budget)])
+            out.append([7, gen_body(rng, depth + 1, budget, False, fav)])
     return out
 
 
 def gen_case(rng):
     ctxy = rng.random() < 0.2
-    body = gen_body(rng, 0, [rng.choice([6, 10, 16, 24])], ctxy)
+    fav = rng.randrange(N_KINDS)
+    body = gen_body(rng, 0, [rng.choice([6, 10, 16, 24])], ctxy, fav)
     sim = Sim(body)
     ops = []
     nops = rng.choice([3, 6, 10, 16])
@@ -405,10 +429,12 @@ def gen_case(rng):
             op = [16, pick(len(sim.effects))]
         elif r < 0.79:
             op = [17, [rng.randint(0, 5) for _ in range(rng.randint(0, 3))]]
-        elif r < 0.84:
+        elif r < 0.815:
             op = [18, pick_user(), rng.randint(1, 3)]
+        elif r < 0.84:
+            op = [28, pick_user(), rng.randint(1, 3), fav if rng.random() < 0.7 else rng.randrange(N_KINDS)]
         elif r < 0.88:
-            op = [19, pick(len(sim.handles))]
+            op = [rng.choice([19, 19, 29]), pick(len(sim.handles))]
         elif r < 0.91:
             op = [20, pick_user()]
         elif r < 0.94:
@@ -460,10 +486,14 @@ def check_point(j, sim, o, disposed_effects, seen_cids):
     if len(st) != len(sim.handles):
         return "op %s: %d handle states for %d handles" % (j, len(st), len(sim.handles))
     for h, v in zip(sim.handles, st):
+        what = "handle %d" % h["hid"] + (" (raw ArenaItem<%s>)" % kind_name(h["kind"]) if h.get("kind") is not None else "")
+        if v in (-4, -5):
+            return "op %s: %s: is_disposed() says %s but the value %s" % (
+                j, what, "disposed" if v == -4 else "not disposed", "still resolves" if v == -4 else "does not resolve")
         if h["alive"] and v != h["hid"]:
-            return "op %s: handle %d was not released but reads %r" % (j, h["hid"], v)
+            return "op %s: %s was not released but reads %r" % (j, what, v)
         if not h["alive"] and v != -1:
-            return "op %s: handle %d was released but still resolves (to %r)" % (j, h["hid"], v)
+            return "op %s: %s was released but is not reported disposed and still resolves (to %r)" % (j, what, v)
     # 3. effects of released scopes never run again; disposed memos do not resolve
     for e in ilog:
         if e[0] == 2 and e[1] in disposed_effects:
@@ -542,11 +572,13 @@ def valid_case(item):
             if d > 4 or not isinstance(b, list):
                 return False
             for st in b:
-                if not isinstance(st, list) or not st or st[0] not in range(12):
+                if not isinstance(st, list) or not st or st[0] not in range(13):
                     return False
                 if st[0] == 3 and not (len(st) == 3 and 0 <= st[1] <= 2 and isinstance(st[2], int)):
                     return False
                 if st[0] == 4 and not (len(st) == 2 and 0 <= st[1] <= 2):
+                    return False
+                if st[0] == 12 and not (len(st) == 2 and isinstance(st[1], int) and 0 <= st[1] < N_KINDS):
                     return False
                 if st[0] in (0, 1, 2) and len(st) != 1:
                     return False
@@ -555,7 +587,7 @@ def valid_case(item):
             return True
         if not ok_body(body, 0):
             return False
-        ar = {10: 2, 11: 2, 12: 2, 13: 2, 14: 2, 15: 2, 16: 2, 17: 2, 18: 3, 19: 2, 20: 2, 21: 2, 22: 3, 23: 2, 24: 2, 26: 2, 27: 2}
+        ar = {10: 2, 11: 2, 12: 2, 13: 2, 14: 2, 15: 2, 16: 2, 17: 2, 18: 3, 19: 2, 20: 2, 21: 2, 22: 3, 23: 2, 24: 2, 26: 2, 27: 2, 28: 4, 29: 2}
         for op in ops:
             if not isinstance(op, list) or not op or op[0] not in ar or len(op) != ar[op[0]]:
                 return False
@@ -566,7 +598,9 @@ def valid_case(item):
                 return False
             if op[0] == 22 and op[2] > 2:
                 return False
-            if op[0] == 18 and op[2] > 8:
+            if op[0] in (18, 28) and op[2] > 8:
+                return False
+            if op[0] == 28 and op[3] >= N_KINDS:
                 return False
         return True
     except Exception:
@@ -574,10 +608,11 @@ def valid_case(item):
 
 
 STN = {0: "signal", 1: "stored", 2: "on_cleanup", 3: "provide", 4: "use", 5: "child", 6: "effect", 7: "memo",
-       8: "render-effect", 9: "isomorphic-effect", 10: "watch", 11: "immediate-effect"}
+       8: "render-effect", 9: "isomorphic-effect", 10: "watch", 11: "immediate-effect", 12: "arena-item"}
 OPN = {10: "rerun", 11: "cleanup", 12: "drop", 13: "notify-effect", 14: "notify-memo", 15: "read-memo", 16: "poll",
        17: "run-until-idle", 18: "alloc", 19: "dispose-value", 20: "pause", 21: "resume", 22: "use-at",
-       23: "dispose-memo", 24: "dispose-effect/drop-render-handle", 26: "notify-immediate", 27: "drop-immediate"}
+       23: "dispose-memo", 24: "dispose-effect/drop-render-handle", 26: "notify-immediate", 27: "drop-immediate",
+       28: "alloc-items", 29: "take-value"}
 
 
 def show_body(b):
@@ -585,6 +620,8 @@ def show_body(b):
     for st in b:
         if st[0] in (5, 6, 7, 8, 9, 10, 11):
             out.append("%s{%s}" % (STN[st[0]], show_body(st[1])))
+        elif st[0] == 12:
+            out.append("arena-item<%s>" % kind_name(st[1]))
         elif len(st) > 1:
             out.append("%s%s" % (STN[st[0]], tuple(st[1:])))
         else:
@@ -598,7 +635,8 @@ def describe(it):
 
 
 def coverage_extra(results):
-    cleanups = releases = pend = uses = 0
+    cleanups = releases = pend = uses = items = items_released = 0
+    kinds = set()
     for r in results:
         m = r["model"]
         if isinstance(m, list) and len(m) == 3:
@@ -612,8 +650,15 @@ def coverage_extra(results):
             before = [e["eid"] for e in sim.effects if e["alive"] and e["set"] and not e["done"]]
             sim.step(op)
             pend += sum(1 for i in before if not sim.effects[i]["alive"])
+        for h in sim.handles:
+            if h.get("kind") is not None:
+                items += 1
+                items_released += not h["alive"]
+                kinds.add(h["kind"])
     return dict(cleanup_runs_compared=cleanups, release_ops=releases,
-                effects_disposed_with_pending_notification=pend, context_hits=uses)
+                effects_disposed_with_pending_notification=pend, context_hits=uses,
+                raw_arena_items=items, raw_arena_items_released_before_end=items_released,
+                raw_arena_item_kinds=len(kinds))
 
 
 LEVEL_TEXT = ("Coq proofs about an executable Gallina transcription of Owner (children / nodes / cleanups / contexts / paused), the "
